@@ -5,6 +5,7 @@ package main
 //   - the packet buffer size expression, the source port, ipHLen of the IPv4 branch, pLen
 //   - the arguments of SetLen / udp.SetLen, the three copy()s (slice bounds + source), the bounds of the
 //     slice handed to Send, the slice put back into the pool, the order of the loop's statements
+//   - the worker's hand-over block in vflow/{ipfix,sflow}.go (copy into a pool buffer, non-blocking send)
 //   - header constants, the template literal, the byte offsets written by Marshal / SetLen / SetAddrs
 //
 // Size/offset expressions are evaluated to linear forms c + p*pLen + m*max (`.lin c p m`) with
@@ -300,6 +301,35 @@ func methodBody(repo, file, recv, name string) ([]string, error) {
 	return nil, fmt.Errorf("mirror/%s: %s.%s not found", file, recv, name)
 }
 
+// the worker's hand-over to the mirror: statements of `if <flag> { … }` in the worker loop
+func mirrorHandOver(repo, file, flagName string) ([]string, error) {
+	fset := token.NewFileSet()
+	f, err := parser.ParseFile(fset, filepath.Join(repo, "vflow", file), nil, 0)
+	if err != nil {
+		return nil, err
+	}
+	var out []string
+	found := 0
+	ast.Inspect(f, func(n ast.Node) bool {
+		is, ok := n.(*ast.IfStmt)
+		if !ok || goText(fset, is.Cond) != flagName {
+			return true
+		}
+		found++
+		for _, st := range is.Body.List {
+			out = append(out, goText(fset, st))
+		}
+		if is.Else != nil {
+			out = append(out, "else "+goText(fset, is.Else))
+		}
+		return false
+	})
+	if found != 1 {
+		return []string{fmt.Sprintf("unrecognised: %d blocks guarded by %s", found, flagName)}, nil
+	}
+	return out, nil
+}
+
 func leanStrList(l []string) string {
 	q := make([]string, len(l))
 	for i, s := range l {
@@ -348,6 +378,16 @@ func genMirrorFacts(repo string) (genFile, error) {
 			return genFile{}, err
 		}
 		fmt.Fprintf(&b, "/-- statements of %s.%s (mirror/%s) -/\ndef %s : List String := %s\n\n", m.recv, m.name, m.file, m.lean, leanStrList(body))
+	}
+	for _, m := range []struct{ lean, file, flagName string }{
+		{"ipfixHandOver", "ipfix.go", "ipfixMirrorEnabled"},
+		{"sflowHandOver", "sflow.go", "sFlowMirrorEnabled"},
+	} {
+		body, err := mirrorHandOver(repo, m.file, m.flagName)
+		if err != nil {
+			return genFile{}, err
+		}
+		fmt.Fprintf(&b, "/-- what the decoding worker does `if %s` (vflow/%s) -/\ndef %s : List String := %s\n\n", m.flagName, m.file, m.lean, leanStrList(body))
 	}
 	b.WriteString("end Vflow.Gen.MirrorFacts\n")
 	return genFile{name: "MirrorFacts", body: b.String()}, nil
